@@ -100,6 +100,8 @@ type Step struct {
 	After []Dep  `json:"after,omitempty"`
 	// Async: run the call on its own goroutine (as the watch callbacks do) instead of the driver's sequence
 	Async bool `json:"async,omitempty"`
+	// DelayMs: the call is made that much later than its preconditions allow (schedule perturbation only)
+	DelayMs int `json:"delay_ms,omitempty"`
 }
 
 // Hold: keep the output pack derived from (P, Idx, Coll) at the "presend" point (channel lock released,
